@@ -20,9 +20,11 @@ def ws_run(r, maxlen=3):
 
 
 def ws_run_long(r):
-    """mostly short; one in six is a run of 4-9 units, one in forty a run of 65-260 units (a bounded quantifier on a \\s+ of a multi-word keyword rule
+    """mostly short; one in twelve uses a bare CR / FF / VT; one in six is a run of 4-9 units, one in forty a run of 65-260 units (a bounded quantifier on a \\s+ of a multi-word keyword rule
     shows only on a long run; the unbounded statement is C11_first_match_run)"""
     x = r.random()
+    if x > 1 - 1 / 12:      # the other characters of \s, alone (a bare CR, FF, VT) and next to the usual ones
+        return r.choice(['\r', '\x0c', '\x0b', ' \r', '\r\t', '\x0c\n'])
     if x < 1 / 40:
         return ''.join(r.choice(WS_UNITS) for _ in range(r.choice([65, 70, 130, 260])))
     if x < 1 / 6:
